@@ -523,6 +523,17 @@ class Tr:
         if self.ctors[cls] is None:
             bad(e, "constructor %s is outside the templates here" % cls)
         gen, tys, ret = self.ctors[cls]
+        if cls == "Combination" and cx.selfcls == "ParameterGenerator" and not e.keywords and len(e.args) == 1 \
+                and isinstance(e.args[0], ast.Attribute) and isinstance(e.args[0].value, ast.Name) \
+                and e.args[0].value.id == "self" and e.args[0].attr == "token":
+            # `Combination(self.token)` inside ParameterGenerator: the model keeps the parameter
+            # token fixed to the default "$" (HYPOTHESIS: pg_token self = "$", the default of both
+            # ParameterGenerator.__init__ and Combination.__init__); under it the call is
+            # `Combination()`, i.e. combination_init_gen.  Generators built with a non-default
+            # parameter token are compared through T-corr only (harness/props/c09.py, after the
+            # sound reduction that rewrites the token to "$").  Anything else than exactly
+            # `self.token` fails closed.
+            return gen, ret
         args = self.args_of(cx, e, tys, cls + "(..)")
         return " ".join([gen] + args), ret
 
